@@ -299,6 +299,66 @@ fn magic_histories<S: crate::novelty::Subject<Op = Op>>(rep: &mut Report) {
     rep.count("events_in_histories_built_round_key_runs_spelled_out_in_the_source", n);
 }
 
+/// Streamed soaks at the event level under the subject's oracle: with nothing / a Shift / a Ctrl / AltGr held / CapsLock on,
+/// two keys pressed alternately N times without release, and one key held for N repeats, then another key, the release and
+/// a fresh press (N = 2^22 quick, 2^24 thorough: beyond any "after a hundred thousand / a million of these" heuristic).
+fn event_soaks<S: crate::novelty::Subject<Op = Op>>(rep: &mut Report) {
+    let n: u64 = if light() { 1 << 17 } else if rep.thorough() { 1 << 24 } else { 1 << 22 };
+    let ctxs: [&[Op]; 5] = [
+        &[],
+        &[Op::Ev(KeyCode::LShift, KeyState::Down)],
+        &[Op::Ev(KeyCode::RControl, KeyState::Down)],
+        &[Op::Ev(KeyCode::RAltGr, KeyState::Down)],
+        &[Op::Ev(KeyCode::CapsLock, KeyState::Down)],
+    ];
+    let shapes = ["two keys pressed alternately without release", "one key held, then another key, the release and a fresh press"];
+    let jobs: Vec<(usize, usize)> = (0..ctxs.len()).flat_map(|c| (0..2).map(move |s| (c, s))).collect();
+    let found: Vec<Option<(usize, usize, u64, String, String)>> = std::thread::scope(|sc| {
+        let hs: Vec<_> = jobs
+            .iter()
+            .map(|(c, sh)| {
+                let (c, sh) = (*c, *sh);
+                let ctx = ctxs[c];
+                sc.spawn(move || {
+                    guarded(|| {
+                        let mut s = S::fresh();
+                        for op in ctx.iter() {
+                            let _ = s.apply(op);
+                        }
+                        let (a, b) = (KeyCode::Q, KeyCode::Oem4);
+                        for i in 0..n {
+                            let op = if sh == 0 { Op::Ev(if i % 2 == 0 { a } else { b }, KeyState::Down) } else { Op::Ev(a, KeyState::Down) };
+                            if let Some((sig, what)) = s.apply(&op) {
+                                return Some((c, sh, i, sig, what));
+                            }
+                        }
+                        let tail = [Op::Ev(b, KeyState::Down), Op::Ev(b, KeyState::Up), Op::Ev(a, KeyState::Up), Op::Ev(a, KeyState::Down), Op::Ev(a, KeyState::Up), Op::Ev(KeyCode::Key7, KeyState::Down), Op::Ev(KeyCode::LShift, KeyState::Up), Op::Ev(a, KeyState::Down)];
+                        for (j, op) in tail.iter().enumerate() {
+                            if let Some((sig, what)) = s.apply(op) {
+                                return Some((c, sh, n + j as u64, sig, what));
+                            }
+                        }
+                        None
+                    })
+                    .unwrap_or(None)
+                })
+            })
+            .collect();
+        hs.into_iter().map(|h| h.join().unwrap_or(None)).collect()
+    });
+    rep.evaluations += n * jobs.len() as u64;
+    rep.count("events_in_streamed_soaks", n * jobs.len() as u64);
+    for f in found.into_iter().flatten() {
+        let (c, sh, i, sig, what) = f;
+        let held: Vec<String> = ctxs[c].iter().map(|o| o.show()).collect();
+        rep.violate(
+            sig.replacen('|', "|soak|", 1),
+            format!("{} (after [{}]), event #{} of the soak: {}", shapes[sh], held.join(", "), i + 1, what),
+            J::obj().with("kind", J::s("event-soak")).with("context", J::strs(held)).with("shape", J::s(shapes[sh])).with("events_before", J::u(i)),
+        );
+    }
+}
+
 fn run_exploration<S: crate::novelty::Subject<Op = Op>>(rep: &mut Report, uni: &[KeyCode]) {
     let budget = if rep.thorough() { 400_000 } else { 30_000 };
     let ex = crate::novelty::explore::<S>(all_event_ops(uni), |o: &Op| o.show(), budget, n_threads());
@@ -504,6 +564,7 @@ pub fn run_c04(rep: &mut Report) {
     // ---------------------------------------------------------------- novelty-guided exploration, then hostile event histories
     run_exploration::<S04>(rep, &uni);
     magic_histories::<S04>(rep);
+    event_soaks::<S04>(rep);
     hostile_histories(rep, &uni);
 
     rep.distinct_nontrivial = changed.len() as u64;
@@ -1208,6 +1269,7 @@ pub fn run_c14(rep: &mut Report) {
 
     run_exploration::<S14>(rep, &uni);
     magic_histories::<S14>(rep);
+    event_soaks::<S14>(rep);
     rep.distinct_nontrivial = distinct_all.len() as u64;
     rep.exhaustive = Some(states.len() < BFS_CAP);
     rep.rule = "a recording layout answers every consultation with a unique token, so a decoded key identifies the exact map_keycode call that produced it; from every one of the decoder's states (BFS closure) every key × {Down, Up, SingleShot} is applied: releases/one-shots must yield None, modifier/lock presses their own raw key (NumLock under the hidden Ctrl → PauseBreak), any other press the token of exactly one call made with (that key, the decoder's live modifiers, the current mode) on the currently installed layout instance; \
